@@ -2,7 +2,7 @@
 From Coq Require Import List ZArith NArith Bool Lia.
 From RecordUpdate Require Import RecordSet.
 From PC.Base Require Import Assoc.
-From PC.Sup Require Import Model Monitors Check Tactics Sim ObsFacts Effects RelCore LemC04 LemC04b LemC04c.
+From PC.Sup Require Import Model Monitors Check Tactics Sim ObsFacts Effects RelCore LemC04 LemC04i LemC04s LemC04t LemC04n LemC04g LemC04o LemC04c.
 Import ListNotations RecordSetNotations.
 
 (* ---- the ghost: facts about the history that neither the model state nor the observer keeps ---------- *)
@@ -301,6 +301,12 @@ Proof. destruct e; cbn; try discriminate; eauto. Qed.
 Lemma cl_pre_norel e : cl_pre e <> Some CRel.
 Proof. destruct e; cbn; discriminate. Qed.
 
+(* proved in an empty context: the same case analysis inside R4_core costs 100 s because of its many hypotheses *)
+Lemma pk_next_pw e : match e with EInstExit => true | _ => false end = true <-> pk_next e = PW.
+Proof. destruct e; cbn; split; congruence. Qed.
+Lemma pk_next_pc e : match e with EExitTrigger _ => true | _ => false end = true <-> exists c, pk_next e = PC c.
+Proof. destruct e; cbn; split; try congruence; try (intros (z & Hz); congruence); eauto. Qed.
+
 Lemma classic_trig e : (exists z, e = EExitTrigger z) \/ (forall z, e <> EExitTrigger z).
 Proof. destruct e; try (right; intros; discriminate). left. eauto. Qed.
 
@@ -371,9 +377,9 @@ Proof.
   - apply obs_nodup, (r_nodup _ _ _ _ HR).
   - rewrite Swg, (r_wg _ _ _ _ HR). destruct e; reflexivity.
   - intros t. rewrite Gwp, Hpk'. destruct (N.eqb_spec t th); [subst|apply (r_wp _ _ _ _ HR)].
-    rewrite Hwf. destruct e; cbn; split; congruence.
+    rewrite Hwf. apply pk_next_pw.
   - intros t. rewrite Gtp, Hpk'. destruct (N.eqb_spec t th); [subst|apply (r_tp _ _ _ _ HR)].
-    rewrite Htf. destruct e; cbn; split; try congruence; try (intros (z & Hz); congruence); eauto.
+    rewrite Htf. apply pk_next_pc.
   - (* the observer's "code fixed" implies the model's *)
     rewrite obs_fixed, Scs. intros Hf.
     assert (Hor : o_code_fixed o = true \/ memN th (o_trig_th o) = true).
